@@ -19,7 +19,7 @@ def run(tier, seed):
                 'not decided: trajectory equality with the uninterrupted run; dill itself (dill.load(dill.dump(x)) == x is assumed; save_ss / load_ss '
                 'are under contract for what they hand to / take from dill, and the pair is replayed natively when a snapshot contract fails or is '
                 'undecided); System.reset reproducibility is a bounded native check')
-    items = [(T.init_resume('C14'),), (T.calc_h('C14', resume_value=True),), (T.run('C14', drop=('success=>initialisation-test-not-failed',)),)]
+    items = [(T.init_resume('C14'),), (T.calc_h('C14', resume_value=True), None, T.replay_calc_h), (T.run('C14', drop=('success=>initialisation-test-not-failed',)),)]
     from contracts import fn_resume as RS
     from contracts import fn_sequence as Q
     items += [(Q.system_reset('C14'),), (Q.p_restore('C14'),), (Q.delegation('C14', 'e_clear', 'e_clear'),)]
